@@ -182,6 +182,11 @@ pub fn worker(ctx: &WorkerCtx) -> WorkerReport {
     let mut rep = WorkerReport::default();
     let mut rng = ctx.rng();
     let (chains, rounds) = if ctx.thorough() { (10, 5) } else { (2, 3) };
+    if let Some(cs) = std::env::var("VH_CASE_SEED").ok().and_then(|s| s.parse::<u64>().ok()) {
+        // debugging aid: one recorded case only
+        one_chain(ctx, &mut rep, cs, rounds);
+        return rep;
+    }
     for _ in 0..chains {
         let cs = rng.next();
         one_chain(ctx, &mut rep, cs, rounds);
